@@ -19,6 +19,8 @@ for _f in ('malt.core.ag_ctx.ControlStatusCtx.__enter__', 'malt.core.ag_ctx.Cont
   SCRIPTS[_f] = ('bounded/rt_ctx.py', ['0', 'quick'])
 for _f in ('malt.pyct.error_utils.ErrorMetadataBase.create_exception', 'malt.impl.api._ErrorMetadata.create_exception'):
   SCRIPTS[_f] = ('bounded/rt_errors.py', ['0', 'quick'])
+for _f in ('malt.impl.api.converted_call', 'malt.impl.api._call_unconverted'):
+  SCRIPTS[_f] = ('bounded/rt_convcall.py', ['0', 'quick'])
 for _f in ('_get_block_vars', '_get_block_basic_vars', '_get_block_composite_vars'):
   SCRIPTS['malt.converters.control_flow.ControlFlowTransformer.' + _f] = ('bounded/rt_blockvars.py', ['0', 'quick'])
 for _m in ('__init__', 'as_tuple', '__eq__', '__hash__', 'uses', 'call_options'):
